@@ -210,6 +210,68 @@ def gen_program(plan, seed, rounds, heap, workers, opts):
     return {"plan": plan, "seed": seed, "head": head, "rounds": rs, "heap": heap, "workers": workers, "opts": opts}
 
 
+def gen_pressure_program(plan, seed, rounds, heap, workers, opts):
+    """FULL-heap rounds: requests made with alloc_with_options(at_safepoint = false) that FAIL (Space::acquire ->
+    not_acquiring -> clear_request, no block_for_gc), many of them, between collections. Large-object fillers keep the heap
+    full of live data; then small / medium requests of every semantics fail one after the other (each failure also
+    requests a GC, which runs before the next op). What was reserved for a failed request must be handed back at once:
+    the REAL per-space counters read by `stats` must stay equal to the pages granted (oracle) and to the ledger the
+    Lean monitor derives from the Pr* events — the PrClearRequest event is logged at the call site, so a clear_request
+    that is skipped / delayed / sized wrongly shows as `stats` != ledger."""
+    rng = random.Random(seed)
+    head = [f"cfg plan {plan}", f"cfg heap {heap}", f"cfg workers {workers}", "cfg watchdog 100", "cfg events 1"] + [f"cfg opt {k} {v}" for k, v in opts] + ["init", "bind 0", "bind 1"]
+    rs, nid = [], 0
+    fill_slots = list(range(20, 60))
+    ops0 = []
+    if plan == "MarkCompact":                     # F-H: keep one survivor in the mark-compact space
+        nid += 1; ops0.append(f"alloc 0 {nid} 0 64 8 0 Default 60")
+    for g in range(rounds):
+        ops = list(ops0) if g == 0 else []
+        # some ordinary allocation first (garbage + a few survivors)
+        for _ in range(rng.choice([0, 5, 20])):
+            nid += 1
+            ops.append(f"alloc {rng.choice([0, 1])} {nid} {rng.choice([0, 1, 2])} {rng.choice([24, 500, 3000, 6000])} 8 0 Default {rng.choice([rng.randrange(0, 20), 63])}")
+        # fill: live large objects, not at a safepoint; asks for 1.2-1.6 x heap in total, so the last ones fail
+        want, got = int(heap * rng.choice([1.2, 1.4, 1.6])), 0
+        rng.shuffle(fill_slots)
+        for s in fill_slots:
+            if got >= want:
+                break
+            nid += 1
+            payload = heap // rng.choice([10, 12, 16, 20, 28]) + rng.randrange(0, 4096)
+            got += payload
+            ops.append(f"alloco {rng.choice([0, 0, 1])} {nid} 0 {payload} 8 0 Los {s} 0 0 {rng.choice([0, 1])}")
+        # the heap is full: requests that fail
+        for _ in range(rng.choice([8, 20, 40])):
+            nid += 1
+            r = rng.random()
+            m = rng.choice([0, 0, 1])
+            if r < 0.55:
+                sem, payload = "Default", rng.choice([0, 24, 100, 500, 1000, 3000, 6000])
+            elif r < 0.65:
+                sem, payload = "Immortal", rng.choice([24, 500, 3000])
+            elif r < 0.75 and plan == "Immix":
+                sem, payload = "NonMoving", rng.choice([24, 500, 3000])
+            else:
+                sem, payload = "Los", rng.choice([20000, 40000, 70000, 150000, heap // 3])
+            q = rng.random()
+            if q < 0.85:
+                ops.append(f"alloco {m} {nid} {rng.choice([0, 1])} {payload} 8 0 {sem} 63 0 0 {rng.choice([0, 1])}")
+            elif q < 0.93 and sem == "Default" and payload <= 1000:
+                ops.append(f"alloco {m} {nid} 0 {payload} 8 0 {sem} 63 1 0 {rng.choice([0, 1])}")      # overcommit: granted
+            elif q < 0.97:
+                ops.append(f"alloco {m} {nid} 0 {payload} 8 0 {sem} 63 0 1 0")      # at a safepoint: blocks, collects, gives up quietly
+            else:
+                ops.append(f"alloc {m} {nid} 0 {payload} 8 0 {sem} 63")              # default options: out_of_memory
+        ops += ["root 0 63 null", "root 1 63 null"]
+        # let part of the fillers go
+        for s in rng.sample(fill_slots, rng.choice([0, 5, 20, 40])):
+            ops += [f"root 0 {s} null", f"root 1 {s} null"]
+        gc = rng.choice([None, "gc 0 0", "gc 0 1", "gc 0 1"])
+        rs.append((ops, gc))
+    return {"plan": plan, "seed": seed, "head": head, "rounds": rs, "heap": heap, "workers": workers, "opts": opts, "kind": "pressure"}
+
+
 def run_program(exe, prog):
     """returns (script for the monitor, expectations, error). One monitor line per event / stats entry."""
     pr = Proc(exe)
@@ -226,20 +288,33 @@ def run_program(exe, prog):
             byhash[fnv32(f[0])] = f[0]
         items.append(("spaces", spaces))
 
-        def drain():
+        def add_events(ev):
             nonlocal nev
-            ev, st = pr.ask(["events", "stats"])
             if "# dropped" in ev:
                 raise EOFError("event log overflowed: " + ev[-40:])
+            k = 0
             for e in E.canon(ev).split()[1:]:
                 seq, tid, kind, a, b = (int(x) for x in e.split(":"))
                 if 50 <= kind <= 58:
                     name = byhash.get(a >> 32)
                     if name is None:
                         raise EOFError(f"event {e}: unknown space hash")
-                    items.append(("ev", kind, name, a & 0xffffffff, b, tid)); nev += 1
-            d = dict(kv.split("=", 1) for kv in st.split())
-            items.append(("stats", [(x.split(":")[0], int(x.split(":")[1]), int(x.split(":")[2])) for x in d["spaces"].split(",")]))
+                    items.append(("ev", kind, name, a & 0xffffffff, b, tid)); nev += 1; k += 1
+            return k
+
+        def drain():
+            """events; then (stats; events) until the second drain shows no page-resource action: a collection that
+            was only REQUESTED by the last op (a failed non-safepoint request does not wait for it) runs when the driver
+            parks between two ops, possibly between `events` and `stats`; the accepted `stats` is one with no
+            page-resource event on either side of it since the ledger was last updated."""
+            add_events(pr.ask(["events"])[0])
+            for _ in range(40):
+                st, ev = pr.ask(["stats", "events"])
+                if add_events(ev) == 0:
+                    d = dict(kv.split("=", 1) for kv in st.split())
+                    items.append(("stats", [(x.split(":")[0], int(x.split(":")[1]), int(x.split(":")[2])) for x in d["spaces"].split(",")]))
+                    return
+            raise EOFError("the page resources never became quiescent between two ops")
 
         drain()
         for gi, (ops, gc) in enumerate(prog["rounds"]):
@@ -345,6 +420,14 @@ def programs(tier, seed):
             if plan in ("Immix", "StickyImmix") and k % 2:
                 opts.append(("immix_always_defrag", "true"))
             ps.append(gen_program(plan, rng.getrandbits(32), rounds, heap, rng.choice([1, 2, 4]), opts))
+    # full-heap programs (failing non-safepoint requests); drawn after the classic ones, which stay as they were
+    for plan in PLANS:
+        if plan == "NoGC":
+            continue                # a GC request panics NoGC by design
+        for k in range(1 if tier == "quick" else 4):
+            heap = rng.choice([6, 8, 16]) << 20 if plan not in ("GenImmix", "GenCopy") else rng.choice([12, 16]) << 20
+            opts = [("nursery", "Fixed:2097152")] if plan in ("GenImmix", "GenCopy") else []
+            ps.append(gen_pressure_program(plan, rng.getrandbits(32), 8 if tier == "quick" else 30, heap, rng.choice([1, 2, 4]), opts))
     return ps
 
 
@@ -364,7 +447,12 @@ GC_RULE = ("GC runs: plans %s (default build; the Compressor needs the unified_r
            "(64 MB NoGC), 1-4 GC workers, two mutators; rounds of 4-60 allocations of 40 B - 150 KB over Default / Los / Immortal (/ NonMoving on Immix and "
            "MarkCompact) followed by root drops and a user GC (nursery or full); the event log is drained and `stats` read after every 12 ops and after every "
            "GC. An evaluation = one `stats` point (every space's counters checked) ; non-trivial = a program with grants and releases/resets; distinct = distinct "
-           "(plan, event-kind histogram)." % ", ".join(PLANS))
+           "(plan, event-kind histogram). Full-heap programs (1 per collecting plan quick / 4 thorough, 8 / 30 rounds): large-object fillers requested with "
+           "alloc_with_options(at_safepoint=false) for 1.2-1.6 x the heap (the last ones fail), then 8-40 requests of Default / Immortal / NonMoving / Los that "
+           "fail off a safepoint (a few with allow_overcommit, at a safepoint without the OOM call, or with default options), part of the fillers dropped, "
+           "natural / nursery / full GC: ~200 PrClearRequest per program, the REAL counters of `stats` must equal the granted pages and the ledger after every "
+           "12 ops. A `stats` point is accepted only between two `events` drains of which the second shows no page-resource action (a GC that a failed request "
+           "only asked for runs between two ops)." % ", ".join(PLANS))
 
 
 def main(argv=None):
